@@ -30,7 +30,16 @@ pub fn produce<F: FElem>(prod: &str, conf: Confidence, d: &Data<F>) -> String {
         ("geo", Data::One(x)) => enc_cires(&Geometric::<F>::ci(conf, x)),
         ("harm", Data::One(x)) => enc_cires(&Harmonic::<F>::ci(conf, x)),
         ("paired", Data::Two(x, y)) => enc_cires(&Paired::<F>::ci(conf, x, y)),
-        ("unpaired", Data::Two(x, y)) => enc_cires(&Unpaired::<F>::ci(conf, x, y)),
+        ("unpaired", Data::Two(x, y)) => {
+            // half of each sample through the wrappers, half through the mutable accessors
+            let mut s = Unpaired::<F>::default();
+            let (hx, hy) = (x.len() / 2, y.len() / 2);
+            s.extend_a(&x[..hx].to_vec()).unwrap();
+            s.extend_b(&y[..hy].to_vec()).unwrap();
+            stats_ci::StatisticsOps::extend(s.stats_a_mut(), &x[hx..].to_vec()).unwrap();
+            stats_ci::StatisticsOps::extend(s.stats_b_mut(), &y[hy..].to_vec()).unwrap();
+            enc_cires(&s.ci_mean(conf))
+        }
         ("wilson", Data::NK(n, k)) => enc_cires(&proportion::ci(conf, *n, *k)),
         ("wald", Data::NK(n, k)) => enc_cires(&proportion::ci_z_normal(conf, *n, *k)),
         ("qidx", Data::NQ(n, q)) => enc_cires(&quantile::ci_indices(conf, *n, *q)),
